@@ -153,6 +153,9 @@ def gen_cases(rng, tier):
         c = {"pos": [enc(x) for x, _ in P], "neg": [enc(x) for x, _ in N], "pg": [l for _, l in P],
              "ng": [l for _, l in N], "names": gnames, "kind": kind, "sc": sc, "ec": ec, "is_sorted": is_sorted,
              "thr": [enc(t) for t in thr], "unknown": unknown, "samples": _samples(rng, P, N, groups, 3), "dtype": dtype}
+        if kind == "int" and k % 4 == 2:
+            c["float_ids"] = True     # the same integer ids held as float64 labels near 1.2e6
+            c["samples"].append({"method": "replacement", "strat": "by_group", "smoothing": False, "seed": rng.randint(0, 2**31 - 1)})
         if longnames:
             c["samples"].append({"method": "replacement", "strat": "by_group", "smoothing": False, "seed": rng.randint(0, 2**31 - 1)})
         if k % 17 == 3:
@@ -191,8 +194,18 @@ def gen_cases(rng, tier):
 
 
 # ------------------------------------------------------------------ implementation side
+FLOAT_ID_OFFSET = 1200300.0     # integer ids held as float64: distinct labels a few units apart at magnitude 1e6
+
+
 def _name(case, v):
+    if case.get("float_ids"):
+        return int(round(float(v) - FLOAT_ID_OFFSET))
     return int(v) if case["kind"] == "int" else str(v)
+
+
+def _lab(case, v):
+    """the label as handed to the library"""
+    return float(v) + FLOAT_ID_OFFSET if case.get("float_ids") else v
 
 
 def _observe(case, o):
@@ -217,9 +230,12 @@ def run_impl(case):
     dt = np.dtype(case.get("dtype", "float64"))       # values exactly representable in the chosen dtype
     pos = np.array([fl(x) for x in case["pos"]], dtype=float).astype(dt)
     neg = np.array([fl(x) for x in case["neg"]], dtype=float).astype(dt)
-    gs = GroupScores(pos, neg, pos_groups=np.array(case["pg"]) if case["pg"] else np.array([], dtype=int if case["kind"] == "int" else str),
-                     neg_groups=np.array(case["ng"]) if case["ng"] else np.array([], dtype=int if case["kind"] == "int" else str),
-                     score_class=case["sc"], equal_class=case["ec"], group_names=case["names"], is_sorted=case["is_sorted"])
+    ldt = float if case.get("float_ids") else (int if case["kind"] == "int" else str)
+    pg_in = np.array([_lab(case, v) for v in case["pg"]]) if case["pg"] else np.array([], dtype=ldt)
+    ng_in = np.array([_lab(case, v) for v in case["ng"]]) if case["ng"] else np.array([], dtype=ldt)
+    names_in = None if case["names"] is None else [_lab(case, v) for v in case["names"]]
+    gs = GroupScores(pos, neg, pos_groups=pg_in, neg_groups=ng_in,
+                     score_class=case["sc"], equal_class=case["ec"], group_names=names_in, is_sorted=case["is_sorted"])
     out = {"ctor": _observe(case, gs), "swap": _observe(case, gs.swap())}
     # the factory: the same data interleaved (labels, scores, groups), positive label 1 or "p"
     if case["names"] is None and len(pos) + len(neg) > 0 and not case["is_sorted"]:
@@ -231,7 +247,7 @@ def run_impl(case):
         nl = {1: [0, 2], "p": ["n", "q"], True: [False]}[pl]
         lab_all = [pl] * len(pos) + [g_.choice(nl) for _ in neg]
         sc_all = np.concatenate([pos, neg])
-        gr_all = list(case["pg"]) + list(case["ng"])
+        gr_all = [_lab(case, v) for v in list(case["pg"]) + list(case["ng"])]
         fl_obj = GroupScores.from_labels(np.array([lab_all[i] for i in order], dtype=object if pl == "p" else None),
                                          sc_all[order], np.array([gr_all[i] for i in order]), pos_label=pl,
                                          score_class=case["sc"], equal_class=case["ec"])
@@ -241,7 +257,7 @@ def run_impl(case):
     items = []
     for g in out["ctor"]["groups"] + [case["unknown"]]:
         try:
-            s = gs[g]
+            s = gs[_lab(case, g)]
             items.append({"g": g, "pos": [enc(float(v)) for v in s.pos], "neg": [enc(float(v)) for v in s.neg],
                           "sc": s.score_class.value, "ec": s.equal_class.value, "ep": int(s.nb_easy_pos), "en": int(s.nb_easy_neg)})
         except ValueError:
